@@ -40,40 +40,52 @@ Print Assumptions C32_callbacks_never_overlap.
 (* A redraw request is never lost: in every reachable state, for every request
    in the trace, a redraw has started after it, or the loop has committed to
    return, or the token is still in redrawCh, or the loop is on its way to a
-   redraw that needs no further request. *)
-Theorem C32_redraw_not_lost : forall ts s a f b,
-  run init ts = Some s -> proj ts = a ++ ERedraw f :: b ->
+   redraw that needs no further request, or a Redraw call is still in flight
+   (invoked, token not yet sent).  [Req f o]: o is Redraw(f) as a whole-call
+   step or as an invocation whose two halves (set flag; send token) are
+   separate steps. *)
+Theorem C32_redraw_not_lost : forall ts s a o f b,
+  run init ts = Some s -> proj ts = a ++ o :: b -> Req f o ->
   (exists o, In o b /\ is_redraw_start o = true) \/
-  returning (pcs s) <> None \/ tok s = true \/ before_redraw (pcs s) = true.
+  returning (pcs s) <> None \/ tok s = true \/ before_redraw (pcs s) = true \/ in_flight s.
 Proof. exact redraw_not_lost. Qed.
 Print Assumptions C32_redraw_not_lost.
 
 (* ... and with loop_progress (below) a loop that is blocked has served all of
    them: the trace-level form. *)
-Theorem C32_redraw_served_when_blocked : forall ts s a f b c,
-  run init ts = Some s -> proj ts = a ++ ERedraw f :: b ++ OQuiesce :: c -> Served f b.
+Theorem C32_redraw_served_when_blocked : forall ts s a o f b c,
+  run init ts = Some s -> proj ts = a ++ o :: b ++ OQuiesce :: c -> Req f o -> Served f b.
 Proof. exact redraw_served_when_blocked. Qed.
 Print Assumptions C32_redraw_served_when_blocked.
 
 (* A requested full redraw is never downgraded: for every Redraw(true) in the
    trace, a FULL redraw has started after it, or the loop has committed to
-   return, or the extracted flag is about to be drawn, or redrawFull is still
-   set and will be extracted. *)
-Theorem C32_full_not_downgraded : forall ts s a b,
-  run init ts = Some s -> proj ts = a ++ ERedraw true :: b ->
+   return, or the extracted flag is about to be drawn, or redrawFull is set and
+   (the token is present, or the loop will extract it, or the call that set it
+   still holds the mutex and will send the token), or the call has not started. *)
+Theorem C32_full_not_downgraded : forall ts s a o b,
+  run init ts = Some s -> proj ts = a ++ o :: b -> Req true o ->
   (exists o, In o b /\ is_full_start o = true) \/
   returning (pcs s) <> None \/ pcs s = PExtracted true \/
-  (full s = true /\ (tok s = true \/ before_extract (pcs s) = true)).
+  (full s = true /\ (tok s = true \/ before_extract (pcs s) = true \/ mid s <> None)) \/
+  pendf s <> 0.
 Proof. exact full_not_downgraded. Qed.
 Print Assumptions C32_full_not_downgraded.
 
 (* The loop is never stuck: unless Run has returned or the loop sits in its
-   select with no event, token or return pending, the loop itself can step. *)
+   select with no event, token or return pending, the loop itself can step --
+   provided no Redraw call holds the mutex between its halves, and such a call
+   can always finish. *)
 Theorem C32_loop_progress : forall s,
-  is_returned (pcs s) = false -> quiescent s = false ->
+  is_returned (pcs s) = false -> loop_idle s = false -> mid s = None ->
   exists l s', loop_label l = true /\ step s l = Some s'.
 Proof. exact loop_progress. Qed.
 Print Assumptions C32_loop_progress.
+
+Theorem C32_redraw_call_progress : forall s f, mid s = Some f ->
+  exists s', step s (Tau TRSecond) = Some s' /\ mid s' = None.
+Proof. exact redraw_call_progress. Qed.
+Print Assumptions C32_redraw_call_progress.
 
 (* Every step of the loop itself strictly decreases a measure of the pending
    work (10 per token / queued event / pending return, plus the distance to the
@@ -86,7 +98,7 @@ Print Assumptions C32_loop_steps_decrease.
 
 (* ... and it reaches, within [measure s] steps, a state where it is blocked
    with nothing pending or has returned. *)
-Theorem C32_loop_settles : forall s,
+Theorem C32_loop_settles : forall s, mid s = None ->
   exists ts s', (forall l, In l ts -> loop_label l = true) /\ length ts <= measure s /\
                 run s ts = Some s' /\ settled s' = true.
 Proof. exact loop_settles. Qed.
@@ -94,8 +106,8 @@ Print Assumptions C32_loop_settles.
 
 (* In a blocked loop, every redraw request of the trace has been followed by a
    redraw start, every full request by a full redraw start. *)
-Theorem C32_blocked_all_served : forall ts s a f b,
-  run init ts = Some s -> quiescent s = true -> proj ts = a ++ ERedraw f :: b ->
+Theorem C32_blocked_all_served : forall ts s a o f b,
+  run init ts = Some s -> quiescent s = true -> proj ts = a ++ o :: b -> Req f o ->
   exists o, In o b /\ (if f then is_full_start o else is_redraw_start o) = true.
 Proof. exact blocked_all_served. Qed.
 Print Assumptions C32_blocked_all_served.
@@ -114,6 +126,38 @@ Theorem C32_exactly_one_final_redraw : forall ts s, run init ts = Some s ->
   (match pcs s with PFinalRedrawing _ | PFinalDone _ | PReturned _ => 1 | _ => 0 end).
 Proof. exact exactly_one_final_redraw. Qed.
 Print Assumptions C32_exactly_one_final_redraw.
+
+(* ---- why Redraw sets the flag before it sends the token ---- *)
+
+(* With the two halves of Redraw swapped (token first and outside the mutex,
+   then lock and set the flag -- [run_ord true]) a Redraw(true) is lost: there
+   is a run in which the call completes, the loop blocks with nothing pending,
+   redrawFull is left set, and no full redraw started after the request; the
+   oracle rejects its observable trace. *)
+Theorem C32_swapped_redraw_loses_full :
+  exists ts s,
+    run_ord true init ts = Some s /\ quiescent s = true /\ full s = true /\
+    proj ts = [CRedrawStart false; CRedrawEnd; ERedrawCall true;
+               CRedrawStart false; CRedrawEnd; OQuiesce] /\
+    check_C32 (proj ts) = false.
+Proof. exact swapped_redraw_loses_full. Qed.
+Print Assumptions C32_swapped_redraw_loses_full.
+
+(* The same steps are not a run of the model of the code, and the acceptor
+   rejects that observable trace. *)
+Theorem C32_code_order_rejects_swapped_witness :
+  run init swapped_witness = None /\
+  accepts [CRedrawStart false; CRedrawEnd; ERedrawCall true;
+           CRedrawStart false; CRedrawEnd; OQuiesce] = false.
+Proof. exact code_order_rejects_swapped_witness. Qed.
+Print Assumptions C32_code_order_rejects_swapped_witness.
+
+(* The whole-call step used for unstaged requests is exactly the invocation
+   followed by the two halves. *)
+Theorem C32_redraw_atomic_is_two_halves : forall s f, mid s = None ->
+  step s (Obs (ERedraw f)) = run s [Obs (ERedrawCall f); Tau (TRFirst f); Tau TRSecond].
+Proof. exact redraw_atomic_is_two_halves. Qed.
+Print Assumptions C32_redraw_atomic_is_two_halves.
 
 (* ---- the tie to the recorded traces ---- *)
 
@@ -151,6 +195,13 @@ Example C32_example_accepted :
            CRedrawStart true; CRedrawEnd; CRedrawStart false; CRedrawEnd; OQuiesce;
            EReturn 7; EReturn 8; CFinalStart false; CFinalEnd; CReturned 7]%N = true.
 Proof. split; vm_compute; reflexivity. Qed.
+
+(* a staged trace: the loop is queued at the mutex when Redraw(true) is invoked *)
+Example C32_example_staged_accepted :
+  accepts [CRedrawStart false; CRedrawEnd; OQuiesce; EInput 1; CHandleStart 1; CHandleEnd;
+           ERedrawCall true; CRedrawStart false; CRedrawEnd; CRedrawStart true; CRedrawEnd;
+           OQuiesce]%N = true.
+Proof. vm_compute; reflexivity. Qed.
 
 (* the oracle rejects: a downgraded full redraw, a lost redraw, events out of
    order, the second Return winning, a missing final redraw, overlapping callbacks *)
